@@ -75,6 +75,12 @@ def locate(fn: ast.AST, locator) -> ast.AST:
         if len(hits) <= n:
             raise Unsupported(f"if #{n} not found")
         return hits[n].test
+    if kind == "while_test":
+        hits = [n for n in ast.walk(fn) if isinstance(n, ast.While)]
+        hits.sort(key=lambda x: (x.lineno, x.col_offset))
+        if len(hits) <= locator[1]:
+            raise Unsupported(f"while #{locator[1]} not found")
+        return hits[locator[1]].test
     if kind == "if_containing":
         # the test of the first if/while whose source text contains the given fragment
         frag = locator[1]
@@ -306,6 +312,19 @@ KERNELS = [
     dict(name="L2PreDec", props=["C02"], file="_gkdi.py", func="compute_l2_key", kind="prop",
          loc=("if_containing", "l2 != 31 and"), typ="Nat", subst={"request_l1": "r1", "l1": "a", "l2": "b"},
          params="(r1 a b : Nat)", obl="(r1 a b : Nat)", call="r1 a b", model="(b ≠ 31 ∧ a ≠ r1)",
+         imports=["Model.Chain"], unfold=[]),
+    # the control skeleton of the walk: when the L2 chain restarts from the L1 key, and when each loop runs
+    dict(name="L2ReseedInit", props=["C02", "C01"], file="_gkdi.py", func="compute_l2_key", kind="prop",
+         loc=("assign", "reseed_l2"), typ="Nat", subst={"request_l1": "r1", "rk.l1": "a", "l2": "b"},
+         params="(r1 a b : Nat)", obl="(r1 a b : Nat)", call="r1 a b", model="(b = 31 ∨ a ≠ r1)",
+         imports=["Model.Chain"], unfold=[]),
+    dict(name="L2Walk1Cond", props=["C02", "C01"], file="_gkdi.py", func="compute_l2_key", kind="prop",
+         loc=("while_test", 0), typ="Nat", subst={"request_l1": "r1", "l1": "a"},
+         params="(r1 a : Nat)", obl="(r1 a : Nat)", call="r1 a", model="(a ≠ r1)",
+         imports=["Model.Chain"], unfold=[]),
+    dict(name="L2Walk2Cond", props=["C02", "C01"], file="_gkdi.py", func="compute_l2_key", kind="prop",
+         loc=("while_test", 1), typ="Nat", subst={"request_l2": "r2", "l2": "b"},
+         params="(r2 b : Nat)", obl="(r2 b : Nat)", call="r2 b", model="(b ≠ r2)",
          imports=["Model.Chain"], unfold=[]),
     # _gkdi.GroupKeyEnvelope.get_kek / new_kek: math.ceil(private_key_length / 8)
     dict(name="CeilPrivLenGet", props=["C03"], file="_gkdi.py", func="GroupKeyEnvelope.get_kek", loc=("call_kw", "compute_kek_from_public_key", "private_key_length"),
@@ -1673,9 +1692,9 @@ end DpapiNg.Gen
 # Third-party call shapes: the arguments a `_crypto.py` wrapper hands to `cryptography` (which the model abstracts as a parameter of
 # `Crypto`) are regenerated as a sorted (argument, source expression) table: positional `#i`, keywords by name, `local:x` for the
 # expression a passed-on local was assigned from, `return` for the returned expression when it is not the call itself.
-def CK(name, props, func, callee, model, with_return=False):
-    return dict(name=name, props=props, file="_crypto.py", func=func, kind="callkw", loc=("callkw", callee), model=model, callee=callee,
-                with_return=with_return, imports=["Model.Crypto"], typ="List (String × String)")
+def CK(name, props, func, callee, model, with_return=False, file="_crypto.py", index=None):
+    return dict(name=name, props=props, file=file, func=func, kind="callkw", loc=("callkw", callee), model=model, callee=callee,
+                with_return=with_return, index=index, imports=["Model.Crypto"], typ="List (String × String)")
 
 
 KERNELS += [
@@ -1687,14 +1706,28 @@ KERNELS += [
     CK("CallGcmEncrypt", ["C01", "C19"], "content_encrypt", "cipher.encrypt", "CryptoCalls.gcmEncrypt"),
     CK("CallKeyUnwrap", ["C04", "C01"], "cek_decrypt", "keywrap.aes_key_unwrap", "CryptoCalls.keyUnwrap"),
     CK("CallKeyWrap", ["C01"], "cek_encrypt", "keywrap.aes_key_wrap", "CryptoCalls.keyWrap"),
+    # the key-derivation calls of the MS-GKDI chain: which key feeds which step, under which context
+    CK("CallL1Seed", ["C02"], "compute_l1_key", "kdf", "CryptoCalls.l1Seed", file="_gkdi.py", index=0),
+    CK("CallL1Key", ["C02"], "compute_l1_key", "kdf", "CryptoCalls.l1Key", file="_gkdi.py", index=1),
+    CK("CallL2WalkL1", ["C02"], "compute_l2_key", "kdf", "CryptoCalls.l2WalkL1", file="_gkdi.py", index=0),
+    CK("CallL2Reseed", ["C02"], "compute_l2_key", "kdf", "CryptoCalls.l2Reseed", file="_gkdi.py", index=1),
+    CK("CallL2WalkL2", ["C02"], "compute_l2_key", "kdf", "CryptoCalls.l2WalkL2", file="_gkdi.py", index=2),
 ]
 
 
-def callkw_table(fn, callee, with_return):
-    calls = [n for n in ast.walk(fn) if isinstance(n, ast.Call) and ast.unparse(n.func) == callee]
-    if len(calls) != 1:
-        raise Unsupported(f"{len(calls)} calls to {callee}")
-    call = calls[0]
+def callkw_table(fn, callee, with_return, index=None):
+    calls = sorted((n for n in ast.walk(fn) if isinstance(n, ast.Call) and ast.unparse(n.func) == callee), key=lambda x: (x.lineno, x.col_offset))
+    if index is None:
+        if len(calls) != 1:
+            raise Unsupported(f"{len(calls)} calls to {callee}")
+        call = calls[0]
+    else:
+        if len(calls) <= index:
+            raise Unsupported(f"call #{index} to {callee} not found ({len(calls)} calls)")
+        call = calls[index]
+        # the table also records how many such calls the function makes
+        return sorted([(f"#{i}", ast.unparse(a)) for i, a in enumerate(call.args)] + [(kw.arg, ast.unparse(kw.value)) for kw in call.keywords]
+                      + [("calls", str(len(calls)))])
     rows = [(f"#{i}", ast.unparse(a)) for i, a in enumerate(call.args)]
     for kw in call.keywords:
         if kw.arg is None:
@@ -1726,7 +1759,7 @@ def generate_callkw(k: dict) -> dict:
         tree = ast.parse(open(path).read())
         fn = find_function(tree, k["func"])
         out["line"] = fn.lineno
-        rows = callkw_table(fn, k["callee"], k["with_return"])
+        rows = callkw_table(fn, k["callee"], k["with_return"], k.get("index"))
         out["python"] = f"{k['func']}: call to {k['callee']} with {len(rows)} recorded argument(s)"
     except (Unsupported, OSError, SyntaxError, ValueError, LookupError) as e:
         out["status"] = "unsupported"
